@@ -37,7 +37,7 @@ type C04Plan struct {
 	Ops       []c04Op              `json:"ops"`
 	Crashes   []c04Crash           `json:"crashes"`
 	Remote    *RemotePlan          `json:"remote,omitempty"` // the unit runs on another node and the controller is the one that crashes (remote_test.go)
-	Enumerate bool                 `json:"enumerate"` // replace Crashes[0].Step by every step index of the fault-free trace
+	Enumerate bool                 `json:"enumerate"`        // replace Crashes[0].Step by every step index of the fault-free trace
 	MaxEnum   int                  `json:"max_enum"`
 	Shrink    []string             `json:"_shrink"`
 }
